@@ -155,7 +155,11 @@ def kernel_group(name):
             res = spec.get("result", ("value",))
             fn = rustkern.parse_fn(text, res[1] if res[0] == "lets" else None)
             spec = dict(spec, doc="translated from `%s`, fn `%s`" % (spec["file"], spec["fn"]))
-            lean, _, _ = rustkern.emit_kernel(fn, spec, spec.get("calls", {}))
+            if spec.get("mode") == "flow":
+                import rustflow
+                lean = rustflow.emit_flow(fn, text, spec, kernels_spec.STRUCTS)
+            else:
+                lean, _, _ = rustkern.emit_kernel(fn, spec, spec.get("calls", {}))
         except rustkern.Unrecognised as ex:
             die("%s fn %s: %s" % (spec["file"], spec["fn"], ex))
         out += lean.rstrip("\n").split("\n") + [""]
@@ -205,7 +209,7 @@ def main():
         kpath = os.path.join(ROOT, "lean/Pds/Generated/Kernels/%s.lean" % kernels_spec.MODULE[name])
         head = ["/- GENERATED by tools/translate.py (tools/rustkern.py) from function bodies in /repo/src; do not edit.",
                 "   Each definition is proved equal to the hand-written model's function in Pds/Proofs/KernelTie/. -/",
-                "import Pds.Model.KernelOps"] + ["import Pds.Generated.Kernels." + m for m in kernels_spec.IMPORTS.get(name, [])] + [
+                "import Pds.Model.KernelOps"] + ["import " + m for m in kernels_spec.LEAN_IMPORTS.get(name, [])] + ["import Pds.Generated.Kernels." + m for m in kernels_spec.IMPORTS.get(name, [])] + [
                 "set_option linter.unusedVariables false", "namespace Pds.Generated.Kernels", "open Pds", "",
                 "variable {α : Type} [Add α] [Sub α] [Mul α] [Div α] [Neg α] [LT α] [LE α] [DecidableLT α] [DecidableLE α] [DecidableEq α] [KOps α]", ""]
         try:
